@@ -3,6 +3,18 @@ import Blue.Proofs.BitVecLaws
 import Blue.Proofs.Csa
 import Blue.Proofs.CsaDoc
 import Blue.Proofs.ConstsTieC19
+import Blue.Proofs.BitArr
+import Blue.Proofs.RrrWord
+import Blue.Proofs.Rrr
+import Blue.Proofs.RrrCf
+import Blue.Proofs.BvSparse
+import Blue.Proofs.SparseUses
+import Blue.Proofs.SampledDoc
+import Blue.Proofs.SigmaRetrieve
+import Blue.Proofs.Wavelet
+import Blue.Proofs.PsiWt
+import Blue.Proofs.PsiWtCsa
+import Blue.Proofs.PsiDoc
 /-! # Property C19 — the compressed text index answers every query as the uncompressed text would;
     bit vectors answer access/rank/select as a plain bit array
 
@@ -20,15 +32,44 @@ the correspondence check ties to the real `scrunch` crate:
   For these the chain is closed at model level: given only that the suffix arrangement is sorted,
   `count`, `search`, `lookup`, `offset_of` and `retrieve` equal the plain scan of the text.
 
-What is **not** proved and is tied by correspondence only (harness `c19.rs`, every run):
+Since the second round the *encodings* are proved too, again about executable models that follow
+the Rust code and that the correspondence run executes on the inputs the real code gets:
 
-* that SA-IS (`sais.rs`, ~900 lines of induced sorting) returns the sorted permutation of the
-  suffixes — the hypothesis `l.Perm (suffixes T)` + `Pairwise lexLt` of the theorems below.  It is
-  *checked* on every generated text: the suffix array of the built document is read back out of
-  its serialised form and the Lean driver decides sortedness with the model's `lexLt`;
-* that the RRR, cf-RRR and sparse encodings, the wavelet-tree ψ, the Huffman wavelet tree and the
-  sampled SA / ISA arrays answer like the `List Bool` / `psi` / `str` models (compared on every
-  generated bit pattern / text, before and after re-parsing).  -/
+* `Blue/Model/BitArr.lean` (`push_word` / `seal` / `load`), `RrrWord.lean` (63-bit words, `encode` /
+  `decode` over the binomial table, `select_word`), `Rrr.lean` and `RrrCf.lean` (the block layouts
+  of `rrr` and `cf_rrr` with their `p` / `r` / class / offset arrays and select samples),
+  `BvSparse.lean` (the B-tree of `sparse::BitVector`): `access` / `rank` / `select` / `select0`
+  computed ON THE ENCODED FORM equal the reference on the decoded `List Bool`, for every bit
+  pattern and every argument;
+* `Sampled.lean` (`SampledArray`, `SampledSuffixArray`, `SampledInverseSuffixArray`): the ψ-walk
+  returns the exact suffix array for every stride and every text length, the sampled inverse is
+  exact at the record boundaries, so `search` / `retrieve` through the samples are the ones over
+  the exact arrays;
+* `Sigma.lean` (`Sigma::construct` with its count table, `char_to_sigma`, `sigma_to_char`, the
+  bucket bit vector, `sa_range_for`, `sa_index_to_t`, `translate_text`): sorted distinct code
+  points ↔ dense ranks, order preserving, round trip; `count` / `search` / `retrieve` ON CODE
+  POINTS equal the plain scan of the original text (this replaces the earlier shift-by-one);
+* `Wavelet.lean` (`wavelet_tree::prefix::WaveletTree` over any prefix-free code book): `access`,
+  `rank_q`, `select_q` equal the reference for the symbols that occur.
+
+* `PsiWt.lean` (`WaveletTreePsi`: rows = runs of equal 2-symbol context, cells, `y_key` / `y_value`,
+  `lookup`, `lower_bound` / `upper_bound` / `constrain` on closed ranges) and `PsiDoc.lean`
+  (`backwards_search` / `count` / `search` / `retrieve` of `CompressedDocument` with EVERY component
+  as the code has it): `lookup` is ψ, `constrain` of a symbol's whole column is the reference
+  `constrain`, and the document's answers on code points equal the plain scan of the text.
+
+What is still **not** proved and is tied by correspondence only (harness `c19.rs`, every run):
+
+* that SA-IS (`sais.rs`) returns the sorted permutation of the suffixes — the hypothesis
+  `l.Perm (suffixes T)` + `Pairwise lexLt` of the index theorems, decided per generated text;
+* the Huffman code construction (`encoder.rs`): the wavelet-tree theorems take the code book as a
+  parameter with the decidable hypothesis "prefix free", decided per input on the REAL code book;
+  and the wavelet-tree ψ model keeps each row's tree as its symbol list with the reference
+  `rank_q` / `select_q` (it only ever asks about symbols that occur in the row:
+  `psi_asks_occurring_symbols`, which is where `wavelet_tree_is_reference` applies);
+* bytes: the byte loop inside `BitArray::load` / `Builder::push_word` (the model is a flat list of
+  bits, compared with the real `BitArray` by the `bv ba` requests), the v64 / protobuf framing of
+  every stub, the bit packing of the sparse tree's slices, 64-bit overflow.  -/
 namespace Blue.Props.C19
 open Blue.BitVec Blue.Csa
 
@@ -208,6 +249,314 @@ theorem doc_retrieve_record (T : List Nat) {l : List (List Nat)} (hperm : l.Perm
       = some ((T.drop rb[r]).take (rb[r + 1]?.getD (T.length - 1) - rb[r])) :=
   Blue.CsaDoc.retrieve_record T hperm hsorted rb hadm r hr
 
+
+/-! ## the encodings: bit array, RRR words, the three bit-vector representations -/
+
+/-- what `push_word` wrote is what `load` reads: the `k`-th of a sequence of fields of varying width,
+    through `seal`, whatever follows it -/
+theorem bitarray_roundtrip (fs : List (Nat × Nat)) (k v w : Nat) (hk : fs[k]? = some (v, w)) (hv : v < 2 ^ w)
+    (post : List Bool) :
+    Blue.BitArr.load (Blue.BitArr.sealBits (Blue.BitArr.packFields fs ++ post)) (((fs.take k).map (·.2)).sum) w = some v :=
+  Blue.BitArr.load_packFields fs k v w hk hv post
+
+/-- RRR word codec: every 63-bit word decodes back from its (offset, class), and the offset fits
+    the `L[class]` bits it is stored in (the combinatorial number system over the table `K`) -/
+theorem rrr_word_roundtrip (w : Nat) (hw : w < 2 ^ 63) :
+    Blue.Rrr.decode (Blue.Rrr.encode w).1 (Blue.Rrr.encode w).2 = some w
+      ∧ (Blue.Rrr.encode w).1 < 2 ^ (Blue.Rrr.lTab.getD (Blue.Rrr.popcount w) 0)
+      ∧ (Blue.Rrr.encode w).2 = Blue.Rrr.popcount w :=
+  ⟨Blue.Rrr.decode_encode w hw, Blue.Rrr.encode_fits w hw, Blue.Rrr.wordSpec.encode_class w hw⟩
+
+/-- the broadword `select_word` (six halving steps) is the reference `select` of the word's bits;
+    `select0` sees the zero padding of a short last word as clear bits -/
+theorem rrr_word_select (ch : List Bool) (x : Nat) (h : ch.length ≤ 63) :
+    Blue.Rrr.select1 (Blue.BitArr.ofBits ch) x = select ch x
+      ∧ Blue.Rrr.select0 (Blue.BitArr.ofBits ch) x = select0 (ch ++ List.replicate (63 - ch.length) false) x :=
+  ⟨Blue.Rrr.select1_ofBits ch x h, Blue.Rrr.select0_ofBits ch x h⟩
+
+/-- **rrr**: for every bit pattern, `construct` (8 words per block, select sample 64) succeeds and the
+    queries computed on the six encoded arrays answer exactly as the plain bit array, at every
+    argument (out of range: `None` on both sides) -/
+theorem rrr_is_bit_array (bits : List Bool) (x : Nat) :
+    Blue.Rrr.len (Blue.Rrr.construct bits) = bits.length
+      ∧ Blue.Rrr.access (Blue.Rrr.construct bits) x = access bits x
+      ∧ Blue.Rrr.rank (Blue.Rrr.construct bits) x = rank bits x
+      ∧ Blue.Rrr.rank0 (Blue.Rrr.construct bits) x = rank0 bits x
+      ∧ Blue.Rrr.select (Blue.Rrr.construct bits) x = select bits x
+      ∧ Blue.Rrr.vselect0 (Blue.Rrr.construct bits) x = select0 bits x
+      ∧ Blue.Rrr.accessRank (Blue.Rrr.construct bits) x
+          = (if x < bits.length then some (bits.getD x false, (bits.take x).count true) else none) :=
+  ⟨Blue.Rrr.len_eq bits, Blue.Rrr.access_eq Blue.Rrr.wordSpec bits x, Blue.Rrr.rank_eq Blue.Rrr.wordSpec bits x,
+   Blue.Rrr.rank0_eq Blue.Rrr.wordSpec bits x, Blue.Rrr.select_eq Blue.Rrr.wordSpec bits x,
+   Blue.Rrr.vselect0_eq Blue.Rrr.wordSpec bits x, Blue.Rrr.accessRank_eq Blue.Rrr.wordSpec bits x⟩
+
+/-- **cf_rrr** (23 words per block = its select sample of 1449 bits), likewise; `select_helper`
+    never reaches its `assert!(rank <= x)` nor the underflow of `select0`'s `load_rank` -/
+theorem cf_rrr_is_bit_array (bits : List Bool) (x : Nat) :
+    Blue.RrrCf.len (Blue.RrrCf.construct bits) = bits.length
+      ∧ Blue.RrrCf.access (Blue.RrrCf.construct bits) x = access bits x
+      ∧ Blue.RrrCf.rank (Blue.RrrCf.construct bits) x = rank bits x
+      ∧ Blue.RrrCf.select (Blue.RrrCf.construct bits) x = select bits x
+      ∧ Blue.RrrCf.select0 (Blue.RrrCf.construct bits) x = select0 bits x
+      ∧ Blue.RrrCf.accessRank (Blue.RrrCf.construct bits) x
+          = (if x ≤ bits.length then some (bits.getD x false, (bits.take x).count true) else none)
+      ∧ (∀ zero, Blue.RrrCf.selectRes (Blue.RrrCf.construct bits) zero x ≠ Blue.RrrCf.Res.panic) :=
+  ⟨Blue.RrrCf.len_construct bits, Blue.RrrCf.access_construct Blue.Rrr.wordSpec bits x,
+   Blue.RrrCf.rank_construct Blue.Rrr.wordSpec bits x, Blue.RrrCf.select_construct Blue.Rrr.wordSpec bits x,
+   Blue.RrrCf.select0_construct Blue.Rrr.wordSpec bits x, Blue.RrrCf.accessRank_construct Blue.Rrr.wordSpec bits x,
+   fun zero => by rw [Blue.RrrCf.selectRes_construct Blue.Rrr.wordSpec]; intro h; cases h⟩
+
+/-- **sparse**: for every branch factor the code admits and every bit pattern, `from_indices` over the
+    set positions succeeds and the B-tree answers exactly as the plain bit array -/
+theorem sparse_is_bit_array (branch : Nat) (bits : List Bool) (hb1 : 4 ≤ branch) (hb2 : branch < 256)
+    (hlen : bits.length ≤ Blue.BvSparse.u64Max) :
+    (Blue.BvSparse.build branch bits.length (Blue.BvSparse.indicesOf bits)).isSome = true
+    ∧ ∀ t, Blue.BvSparse.build branch bits.length (Blue.BvSparse.indicesOf bits) = some t →
+      Blue.BvSparse.len t = bits.length
+      ∧ ∀ x, Blue.BvSparse.accessRank t x = (if x ≤ bits.length then
+              some (bits.getD x false, (bits.take x).count true) else none)
+        ∧ Blue.BvSparse.access t x = access bits x
+        ∧ Blue.BvSparse.rank t x = rank bits x
+        ∧ Blue.BvSparse.select t x = select bits x
+        ∧ Blue.BvSparse.rank0 t x = rank0 bits x
+        ∧ Blue.BvSparse.select0 t x = select0 bits x :=
+  Blue.BvSparse.bits_theorems hb1 hb2 hlen
+
+/-- the three vectors the index stores through `from_indices` directly (presence vector of a
+    `SampledArray`, branch 128; `Sigma`'s buckets, branch 16; the record boundaries, branch 16)
+    answer on the sparse tree like the plain bit arrays the index models use -/
+theorem sparse_in_the_index :
+    (∀ (offs : List Nat) (last : Nat), offs.Pairwise (· < ·) → (∀ o ∈ offs, o ≤ last) → last + 1 ≤ Blue.BvSparse.u64Max →
+      ∃ t, Blue.BvSparse.build Blue.Sampled.presentBranch (last + 1) offs = some t ∧ ∀ x,
+        Blue.BvSparse.accessRank t x = Blue.Sampled.accessRank (Blue.Sampled.presentBits (last + 1) offs) x)
+    ∧ (∀ (text : List Nat), text.length + 1 ≤ Blue.BvSparse.u64Max →
+      ∃ t, Blue.BvSparse.build Blue.Sigma.columnsBranch (text.length + 1) (Blue.Sigma.bucketsOf text) = some t ∧ ∀ x,
+        Blue.BvSparse.rank t x = rank (Blue.Sigma.sigOf text).columns x
+        ∧ Blue.BvSparse.select t x = select (Blue.Sigma.sigOf text).columns x)
+    ∧ (∀ (n : Nat) (rb : List Nat), Blue.CsaDoc.admissible n rb = true → n ≤ Blue.BvSparse.u64Max →
+      ∃ t, Blue.BvSparse.build Blue.Sampled.boundaryBranch n (Blue.SparseUses.sparseBoundaries rb) = some t ∧ ∀ x,
+        Blue.BvSparse.rank t x = rank (Blue.CsaDoc.boundaryBits n rb) x
+        ∧ Blue.BvSparse.select t x = select (Blue.CsaDoc.boundaryBits n rb) x) :=
+  ⟨fun offs last h1 h2 h3 => Blue.SparseUses.sampled_present offs last h1 h2 h3,
+   fun text h => Blue.SparseUses.sigma_columns text h,
+   fun n rb h1 h2 => Blue.SparseUses.record_boundaries n rb h1 h2⟩
+
+/-- the constants of the encodings are the ones in the source (regenerated every run) -/
+theorem encodings_from_source :
+    (Blue.Rrr.kTab.flatten = Blue.Generated.scrunchRrrKFlat ∧ Blue.Rrr.kTab.map List.length = Blue.Generated.scrunchRrrKRowLens)
+    ∧ Blue.Rrr.lTab = Blue.Generated.scrunchRrrL
+    ∧ (∀ bits, (Blue.Rrr.construct bits).word = Blue.Generated.scrunchRrrWord
+        ∧ (Blue.Rrr.construct bits).select = Blue.Generated.scrunchRrrSelect)
+    ∧ Blue.RrrCf.sampleC = Blue.Generated.scrunchCfRrrSelectSample
+    ∧ Blue.Sampled.saSampling = Blue.Generated.scrunchSaSampling
+    ∧ (Blue.Sampled.presentBranch = Blue.Generated.scrunchSampledArrayBranch
+        ∧ Blue.Sigma.columnsBranch = Blue.Generated.scrunchSigmaBranch
+        ∧ Blue.Sampled.boundaryBranch = Blue.Generated.scrunchBoundaryBranch
+        ∧ Blue.BvSparse.constructBranch = Blue.Generated.scrunchSparseConstructBranch) :=
+  ⟨Blue.ConstsTie.scrunch_rrr_K, Blue.ConstsTie.scrunch_rrr_L, Blue.ConstsTie.scrunch_rrr_params,
+   Blue.ConstsTie.scrunch_cf_rrr_sample, Blue.ConstsTie.scrunch_sa_sampling, Blue.ConstsTie.scrunch_branches⟩
+
+/-! ## the sampled suffix array and inverse suffix array -/
+
+/-- a `SampledArray` (presence vector + bit-packed values) reads back exactly the pairs it was built
+    from, `None` elsewhere -/
+theorem sampled_array_lookup (vals : List (Nat × Nat)) (hne : vals ≠ [])
+    (hpw : (vals.map (·.1)).Pairwise (· < ·)) :
+    ∃ s, Blue.Sampled.construct vals = some s ∧ ∀ x, Blue.Sampled.lookup s x = List.lookup x vals :=
+  Blue.Sampled.lookup_construct vals hne hpw
+
+/-- the sampled suffix array — every entry whose text position is a multiple of the stride, ψ-walk
+    from any other rank to the next sample or to rank 0 — returns the exact suffix array at every
+    rank: for EVERY stride (the code uses `2^6`) and every text length -/
+theorem sampled_sa_is_exact (T : List Nat) {l : List (List Nat)} (hperm : l.Perm (suffixes T))
+    (hsorted : l.Pairwise (fun a b => lexLt a b = true)) (hT : T ≠ []) (h0 : (str l 0).length = 1) (st : Nat) :
+    ∃ s, Blue.Sampled.ssaConstruct st (Blue.Sampled.saList l) = some s
+      ∧ ∀ i, i < l.length → Blue.Sampled.ssaLookup l s i = some (saOf l l.length i) :=
+  Blue.Sampled.ssaLookup_exact T hperm hsorted hT h0 st
+
+/-- the hypothesis `h0` holds for every text in the code's form (rank 0 is the end marker's suffix) -/
+theorem rank_zero_is_marker (text : List Nat) {l : List (List Nat)}
+    (hperm : l.Perm (suffixes (Blue.CsaDoc.withMarker text)))
+    (hsorted : l.Pairwise (fun a b => lexLt a b = true)) : (str l 0).length = 1 :=
+  Blue.Sampled.rank_zero_is_marker text hperm hsorted
+
+/-- the sampled inverse suffix array is exact at every sampled position and an error elsewhere -/
+theorem sampled_isa_is_exact (l : List (List Nat)) (rb : List Nat) (hne : rb ≠ [])
+    (hpw : rb.Pairwise (· < ·)) (hb : ∀ b ∈ rb, b < l.length) :
+    ∃ s, Blue.Sampled.sisaConstruct l rb = some s
+      ∧ ∀ x, Blue.Sampled.sisaLookup s x = if x ∈ rb then some (Blue.CsaDoc.isa l x) else none :=
+  Blue.Sampled.sisaLookup_exact l rb hne hpw hb
+
+/-- `search` and `retrieve` through the sampled containers are the ones over the exact arrays (about
+    which `doc_search_is_scan_text` and `doc_retrieve_record` speak) -/
+theorem doc_sampled (T : List Nat) {l : List (List Nat)} (hperm : l.Perm (suffixes T))
+    (hsorted : l.Pairwise (fun a b => lexLt a b = true)) (h0 : (str l 0).length = 1)
+    (rb : List Nat) (hadm : Blue.CsaDoc.admissible (T.length - 1) rb = true) (st : Nat) :
+    ∃ s si, Blue.Sampled.ssaConstruct st (Blue.Sampled.saList l) = some s ∧ Blue.Sampled.sisaConstruct l rb = some si
+      ∧ (∀ i, i < l.length → Blue.Sampled.ssaLookup l s i = some (saOf l l.length i))
+      ∧ (∀ needle, (backwardSearch l (Blue.CsaDoc.sigmaRange l) needle).2 ≤ l.length →
+            Blue.Sampled.searchS l s needle = some (Blue.CsaDoc.search l needle))
+      ∧ (∀ r, Blue.Sampled.retrieveS l si (Blue.CsaDoc.boundaryBits (T.length - 1) rb) r
+            = Blue.CsaDoc.retrieve l (Blue.CsaDoc.boundaryBits (T.length - 1) rb) r) :=
+  Blue.Sampled.sampled_document T hperm hsorted h0 rb hadm st
+
+/-! ## Sigma: code points ↔ dense symbols, and the document on code points -/
+
+/-- `Sigma::construct` never hits the out-of-bounds panic of its dense count table, and returns
+    `sigma_to_char` strictly increasing, listing exactly the code points of the text -/
+theorem sigma_construct (text : List Nat) :
+    ∃ s, Blue.Sigma.construct text = some s ∧ s.sigmaToChar.Pairwise (· < ·) ∧ ∀ t, t ∈ s.sigmaToChar ↔ t ∈ text :=
+  ⟨_, Blue.Sigma.construct_sigOf text,
+   (Blue.Sigma.sigmaToChar_sorted text _ (Blue.Sigma.construct_sigOf text)).1,
+   (Blue.Sigma.sigmaToChar_sorted text _ (Blue.Sigma.construct_sigOf text)).2⟩
+
+/-- round trip and order: `char_to_sigma(t) = Some(σ)` iff `σ ≥ 1` and `sigma_to_char(σ) = t`; `None`
+    exactly off the alphabet; the dense symbols keep the order of the code points -/
+theorem sigma_roundtrip (s : Blue.Sigma.Sig) (hs : s.sigmaToChar.Pairwise (· < ·)) :
+    (∀ t σ, Blue.Sigma.charToSigma s t = some σ ↔ (1 ≤ σ ∧ Blue.Sigma.sigmaToChar s σ = some t))
+    ∧ (∀ t, Blue.Sigma.charToSigma s t = none ↔ t ∉ s.sigmaToChar)
+    ∧ (∀ t₁ t₂ σ₁ σ₂, Blue.Sigma.charToSigma s t₁ = some σ₁ → Blue.Sigma.charToSigma s t₂ = some σ₂ →
+        (t₁ < t₂ ↔ σ₁ < σ₂)) :=
+  ⟨fun t σ => Blue.Sigma.charToSigma_iff s hs t σ, fun t => Blue.Sigma.charToSigma_none_iff s t,
+   fun t₁ t₂ σ₁ σ₂ h₁ h₂ => Blue.Sigma.charToSigma_mono s hs t₁ t₂ σ₁ σ₂ h₁ h₂⟩
+
+/-- `translate_text` succeeds on the text the alphabet was built from, and `Sigma::sa_range_for(t)` —
+    two `select`s on the bucket bit vector, or `(1, 0)` for a code point that does not occur — is the
+    block of suffixes of the translated text's index that start with `t`'s symbol -/
+theorem sigma_ranges (text : List Nat) {l : List (List Nat)}
+    (hperm : l.Perm (suffixes (Blue.Sigma.translated text))) (t : Nat) :
+    Blue.Sigma.translate (Blue.Sigma.sigOf text) text = some (Blue.Sigma.translated text)
+    ∧ Blue.Sigma.rangeForT (Blue.Sigma.sigOf text) t
+        = Blue.CsaDoc.sigmaRange l (Blue.Sigma.needleSym (Blue.Sigma.sigOf text) t) :=
+  ⟨Blue.Sigma.translate_sigOf text, Blue.Sigma.rangeForT_eq text hperm t⟩
+
+/-- headline on CODE POINTS: `count` (the real `Sigma` for the symbol ranges, backward search over ψ)
+    is the number of positions of the original text at which the needle occurs — for every text
+    over any code points, every needle (occurring symbols or not), given only the suffix order -/
+theorem doc_count_codepoints (text : List Nat) {l : List (List Nat)}
+    (hperm : l.Perm (suffixes (Blue.Sigma.translated text)))
+    (hsorted : l.Pairwise (fun a b => lexLt a b = true)) (needle : List Nat) (hne : needle ≠ []) :
+    Blue.Csa.count l (Blue.Sigma.rangeForT (Blue.Sigma.sigOf text)) needle
+      = ((List.range text.length).filter (fun k => needle.isPrefixOf (text.drop k))).length :=
+  Blue.Sigma.count_codepoints text hperm hsorted needle hne
+
+/-- … `search` through the sampled suffix array (any stride) reports exactly those positions, in
+    ascending order … -/
+theorem doc_search_codepoints (text : List Nat) {l : List (List Nat)}
+    (hperm : l.Perm (suffixes (Blue.Sigma.translated text)))
+    (hsorted : l.Pairwise (fun a b => lexLt a b = true)) (st : Nat) (needle : List Nat) (hne : needle ≠ []) :
+    ∃ ssa ps, Blue.Sampled.ssaConstruct st (Blue.Sampled.saList l) = some ssa
+      ∧ Blue.Sampled.searchRT (Blue.Sigma.rangeForT (Blue.Sigma.sigOf text)) (Blue.Sampled.psiTable l) l ssa needle = some ps
+      ∧ ps.Pairwise (· ≤ ·) ∧ ∀ k, k ∈ ps ↔ (k < text.length ∧ needle <+: text.drop k) :=
+  Blue.Sigma.search_codepoints text hperm hsorted st needle hne
+
+/-- … and `retrieve(r)` — two `select`s, the sampled inverse suffix array, then `sa_index_to_t` and ψ
+    once per symbol — returns record `r` of the original text code point for code point -/
+theorem doc_retrieve_codepoints (text : List Nat) {l : List (List Nat)}
+    (hperm : l.Perm (suffixes (Blue.Sigma.translated text)))
+    (hsorted : l.Pairwise (fun a b => lexLt a b = true)) (rb : List Nat)
+    (hadm : Blue.CsaDoc.admissible text.length rb = true) (r : Nat) (hr : r < rb.length) :
+    ∃ si, Blue.Sampled.sisaConstruct l rb = some si
+      ∧ Blue.Sigma.retrieveT (Blue.Sigma.sigOf text) l si (Blue.CsaDoc.boundaryBits text.length rb) r
+          = some ((text.drop rb[r]).take (rb[r + 1]?.getD text.length - rb[r])) :=
+  Blue.Sigma.retrieve_codepoints text hperm hsorted rb hadm r hr
+
+/-! ## the prefix-code wavelet tree -/
+
+/-- for every prefix-free code book (the real Huffman book is checked per input) and every text over
+    it: `construct` succeeds, `access` is the reference `access`, and `rank_q` / `select_q` of every
+    symbol that occurs are the reference ones, at every argument -/
+theorem wavelet_tree_is_reference (cb : Blue.Wavelet.CodeBook) (text : List Nat)
+    (hpf : Blue.Wavelet.prefixFreeB cb = true) (hin : Blue.Wavelet.inBookB cb text = true) :
+    ∃ w, Blue.Wavelet.construct cb text = some w ∧ Blue.Wavelet.len w = text.length
+      ∧ (∀ x, Blue.Wavelet.access w x = Blue.WaveletRef.access text x)
+      ∧ (∀ q, q ∈ text → ∀ x, Blue.Wavelet.rankQ w q x = Blue.WaveletRef.rankQ text q x
+          ∧ Blue.Wavelet.selectQ w q x = Blue.WaveletRef.selectQ text q x) := by
+  obtain ⟨w, hw, hl, _⟩ := Blue.Wavelet.construct_ok cb text hpf hin
+  exact ⟨w, hw, hl, fun x => Blue.Wavelet.access_eq cb text hpf hin w hw x,
+    fun q hq x => ⟨Blue.Wavelet.rankQ_eq cb text hpf hin w hw q hq x, Blue.Wavelet.selectQ_eq cb text hpf hin w hw q hq x⟩⟩
+
+
+/-! ## the wavelet-tree ψ and the compressed document with every component as the code has it -/
+
+/-- `WaveletTreePsi::construct` succeeds on every `Good` input (ψ a permutation, first symbols
+    non-decreasing, ψ increasing inside a column), `lookup(idx)` is `psi[idx]` at every rank, and
+    `constrain(column of σ, (a, b))` (closed ranges, `1 ≤ r0`) is `ReferencePsi::constrain` — the two
+    binary searches over the ψ slice — for every closed `(a, b)`; no `assert!` fires -/
+theorem wavelet_psi_is_reference {syms psi : List Nat} (h : Blue.PsiWt.Good syms psi) :
+    ∃ w, Blue.PsiWt.construct syms psi = some w ∧ Blue.PsiWt.len w = psi.length
+      ∧ (∀ idx, idx < psi.length → Blue.PsiWt.lookupO syms w idx = .ok (psi.getD idx 0))
+      ∧ (∀ σ r0 r1, Blue.PsiWt.IsColumn syms σ r0 r1 → 1 ≤ r0 → ∀ a b, a ≤ b →
+          Blue.PsiWt.constrain syms w (r0, r1) (a, b) = .ok (Blue.PsiWt.refConstrain psi (r0, r1) (a, b))) := by
+  obtain ⟨w, hw, hl⟩ := Blue.PsiWt.construct_ok h
+  exact ⟨w, hw, hl, fun idx hi => (Blue.PsiWt.lookup_spec h w hw idx hi).1,
+    fun σ r0 r1 hc h0 a b hab => Blue.PsiWt.constrain_spec h w hw hc h0 a b hab⟩
+
+/-- what a real text delivers is `Good` (given the suffix order) -/
+theorem wavelet_psi_input_good (text : List Nat) (l : List (List Nat))
+    (hperm : l.Perm (suffixes (Blue.CsaDoc.withMarker text))) (hsorted : l.Pairwise (fun a b => lexLt a b = true)) :
+    Blue.PsiWt.Good (Blue.PsiWt.symsOf l) (Blue.PsiWt.psiOf (Blue.CsaDoc.withMarker text) l) :=
+  Blue.PsiWt.good_of_suffixes text l hperm hsorted
+
+/-- every `select_q` of `lookup` and every `rank_q` of `lower_bound` / `upper_bound` asks a row's tree
+    about a symbol that occurs in that row — where the Huffman-shaped tree equals the reference -/
+theorem psi_asks_occurring_symbols {syms psi : List Nat} (h : Blue.PsiWt.Good syms psi) (w : Blue.PsiWt.WtPsi)
+    (hw : Blue.PsiWt.construct syms psi = some w) :
+    (∀ idx, idx < psi.length → ∃ k j c, rank w.ykey idx = some k ∧ w.yvalue[k]? = some j ∧ w.table[j]? = some c
+        ∧ syms.getD idx 0 ∈ c.tree)
+    ∧ (∀ σ r0 r1, Blue.PsiWt.IsColumn syms σ r0 r1 → 1 ≤ r0 → ∀ point,
+        ∃ c s e, Blue.PsiWt.boundCell syms w point (r0, r1) = .ok (.inr (c, s, e, σ)) ∧ σ ∈ c.tree) :=
+  ⟨fun idx hi => Blue.PsiWt.lookup_symbol_occurs h w hw idx hi,
+   fun _ _ _ hc h0 point => Blue.PsiWt.bound_symbol_occurs h w hw hc h0 point⟩
+
+/-- outside the property (all callers pass whole columns), kept as a theorem: on a sub-range of a
+    column that does not end on cell boundaries `WaveletTreePsi::constrain` answers for whole cells
+    where `ReferencePsi::constrain` clamps to the range (text `aaaa`) -/
+theorem wavelet_psi_subrange_not_clamped :
+    (Blue.PsiWt.construct [0, 1, 1, 1, 1] [4, 0, 1, 2, 3]).map (fun w => Blue.PsiWt.constrain [0, 1, 1, 1, 1] w (1, 3) (0, 3))
+        = some (.ok (1, 4))
+    ∧ Blue.PsiWt.refConstrain [4, 0, 1, 2, 3] (1, 3) (0, 3) = (1, 3)
+    ∧ Blue.PsiWt.goodB [0, 1, 1, 1, 1] [4, 0, 1, 2, 3] = true := Blue.PsiWt.subrange_not_clamped
+
+/-- HEADLINE, every component as in `CompressedDocument`: for every text over any code points, given
+    only that `l` is the strictly increasing arrangement of the suffixes of the translated text (what
+    SA-IS must deliver): the wavelet-tree ψ exists; `count` (Sigma ranges, closed-range backward search
+    through `WaveletTreePsi::constrain`) is the number of occurrences of the needle in the text … -/
+theorem compressed_count_is_scan (text : List Nat) {l : List (List Nat)}
+    (hperm : l.Perm (suffixes (Blue.Sigma.translated text)))
+    (hsorted : l.Pairwise (fun a b => lexLt a b = true)) :
+    ∃ w, Blue.PsiWt.construct (Blue.PsiWt.symsOf l) (Blue.PsiWt.psiOf (Blue.Sigma.translated text) l) = some w
+      ∧ Blue.PsiWt.len w = text.length + 1
+      ∧ ∀ needle, needle ≠ [] →
+          Blue.PsiDoc.count (Blue.PsiWt.symsOf l) w (Blue.Sigma.rangeForT (Blue.Sigma.sigOf text)) needle
+            = .ok (((List.range text.length).filter (fun k => needle.isPrefixOf (text.drop k))).length) := by
+  obtain ⟨w, hw, hl⟩ := Blue.PsiDoc.construct_exists text hperm hsorted
+  exact ⟨w, hw, hl, fun needle hne => Blue.PsiDoc.count_is_scan text hperm hsorted w hw needle hne⟩
+
+/-- … `search` (the same range, then the ψ-walk of the sampled suffix array over
+    `WaveletTreePsi::lookup`, any stride) reports exactly the occurrence positions in ascending order … -/
+theorem compressed_search_is_scan (text : List Nat) {l : List (List Nat)}
+    (hperm : l.Perm (suffixes (Blue.Sigma.translated text)))
+    (hsorted : l.Pairwise (fun a b => lexLt a b = true)) (w : Blue.PsiWt.WtPsi)
+    (hw : Blue.PsiWt.construct (Blue.PsiWt.symsOf l) (Blue.PsiWt.psiOf (Blue.Sigma.translated text) l) = some w)
+    (st : Nat) (needle : List Nat) (hne : needle ≠ []) :
+    ∃ ssa ps, Blue.Sampled.ssaConstruct st (Blue.Sampled.saList l) = some ssa
+      ∧ Blue.PsiDoc.search (Blue.PsiWt.symsOf l) w (Blue.Sigma.rangeForT (Blue.Sigma.sigOf text)) ssa needle = .ok ps
+      ∧ ps.Pairwise (· ≤ ·) ∧ ∀ k, k ∈ ps ↔ (k < text.length ∧ needle <+: text.drop k) :=
+  Blue.PsiDoc.search_is_scan text hperm hsorted w hw st needle hne
+
+/-- … and `retrieve(r)` (two `select`s, the sampled inverse suffix array, then `sa_index_to_t` and
+    `WaveletTreePsi::lookup` once per symbol) returns record `r` code point for code point -/
+theorem compressed_retrieve_is_record (text : List Nat) {l : List (List Nat)}
+    (hperm : l.Perm (suffixes (Blue.Sigma.translated text)))
+    (hsorted : l.Pairwise (fun a b => lexLt a b = true)) (w : Blue.PsiWt.WtPsi)
+    (hw : Blue.PsiWt.construct (Blue.PsiWt.symsOf l) (Blue.PsiWt.psiOf (Blue.Sigma.translated text) l) = some w)
+    (rb : List Nat) (hadm : Blue.CsaDoc.admissible text.length rb = true) (r : Nat) (hr : r < rb.length) :
+    ∃ si, Blue.Sampled.sisaConstruct l rb = some si
+      ∧ Blue.PsiDoc.retrieve (Blue.Sigma.sigOf text) (Blue.PsiWt.symsOf l) w si (Blue.CsaDoc.boundaryBits text.length rb) r
+          = some ((text.drop rb[r]).take (rb[r + 1]?.getD text.length - rb[r])) :=
+  Blue.PsiDoc.retrieve_is_record text hperm hsorted w hw rb hadm r hr
+
 /-! ## non-vacuity -/
 
 /-- the text `a b a b $` (`1 2 1 2 0`): `ab` occurs twice, `ba` once, `bb` never -/
@@ -226,6 +575,32 @@ example : Blue.CsaDoc.admissible 4 [0, 2, 3] = true
 example : select [false, true, false, true] 2 = some 4 ∧ select [false, true, false, true] 3 = none
     ∧ select0 [false, true, false, true] 2 = some 3 ∧ rank0 [false, true] 2 = some 1 := by decide
 example : partitionBy (fun i => decide (i < 3)) 11 0 10 = 3 := by decide
+
+/-- the encodings on concrete inputs -/
+example : Blue.Rrr.encode 0b101100 = (26, 3) ∧ Blue.Rrr.decode 26 3 = some 0b101100 := by decide
+example : Blue.Sampled.bitsRequired 255 = 9 ∧ Blue.Sampled.bitsRequired 256 = 9 := by decide
+example : (Blue.Sampled.ssaConstruct 2 (Blue.Sampled.saList exL)).map
+    (fun s => (List.range 5).map (Blue.Sampled.ssaLookup exL s)) = some [some 4, some 2, some 0, some 3, some 1] := by decide
+example : (Blue.Sampled.sisaConstruct exL [0, 2, 3]).map (fun s => (List.range 5).map (Blue.Sampled.sisaLookup s))
+    = some [some 2, none, some 1, some 3, none] := by decide
+example : (str exL 0).length = 1 := by decide
+/-- `m i s s i` over code points 105 109 115: the alphabet, the translation and the ranges -/
+example : (Blue.Sigma.construct [109, 105, 115, 115, 105]).map (fun s => s.sigmaToChar) = some [105, 109, 115]
+    ∧ (Blue.Sigma.construct [109, 105, 115, 115, 105]).bind (fun s => Blue.Sigma.translate s [109, 105, 115, 115, 105])
+        = some [2, 1, 3, 3, 1, 0]
+    ∧ (Blue.Sigma.construct [109, 105, 115, 115, 105]).bind (fun s => Blue.Sigma.saRangeFor s 105) = some (1, 2)
+    ∧ (Blue.Sigma.construct [109, 105, 115, 115, 105]).bind (fun s => Blue.Sigma.saRangeFor s 115) = some (4, 5)
+    ∧ (Blue.Sigma.construct [109, 105, 115, 115, 105]).bind (fun s => Blue.Sigma.saRangeFor s 110) = some (1, 0) := by
+  decide
+example : Blue.Wavelet.prefixFreeB [(7, 0, 1), (8, 1, 2), (9, 3, 2)] = true
+    ∧ Blue.Wavelet.inBookB [(7, 0, 1), (8, 1, 2), (9, 3, 2)] [7, 8, 7, 9] = true := by decide
+/-- the wavelet-tree ψ of `a b a b $`: it exists, looks ψ up, and constrains `a`'s column -/
+example : Blue.PsiWt.goodB (Blue.PsiWt.symsOf exL) (Blue.PsiWt.psiOf [1, 2, 1, 2, 0] exL) = true := by decide
+example : (Blue.PsiWt.construct (Blue.PsiWt.symsOf exL) (Blue.PsiWt.psiOf [1, 2, 1, 2, 0] exL)).map
+    (fun w => ((List.range 5).map (Blue.PsiWt.lookup (Blue.PsiWt.symsOf exL) w),
+               Blue.PsiWt.constrain (Blue.PsiWt.symsOf exL) w (1, 2) (3, 4),
+               Blue.PsiDoc.count (Blue.PsiWt.symsOf exL) w (Blue.CsaDoc.sigmaRange exL) [1, 2]))
+    = some ([some 2, some 3, some 4, some 0, some 1], .ok (1, 2), .ok 2) := by decide
 
 end Blue.Props.C19
 
@@ -254,3 +629,30 @@ end Blue.Props.C19
 #print axioms Blue.Props.C19.doc_count_empty
 #print axioms Blue.Props.C19.doc_records
 #print axioms Blue.Props.C19.doc_retrieve_record
+#print axioms Blue.Props.C19.bitarray_roundtrip
+#print axioms Blue.Props.C19.rrr_word_roundtrip
+#print axioms Blue.Props.C19.rrr_word_select
+#print axioms Blue.Props.C19.rrr_is_bit_array
+#print axioms Blue.Props.C19.cf_rrr_is_bit_array
+#print axioms Blue.Props.C19.sparse_is_bit_array
+#print axioms Blue.Props.C19.sparse_in_the_index
+#print axioms Blue.Props.C19.encodings_from_source
+#print axioms Blue.Props.C19.sampled_array_lookup
+#print axioms Blue.Props.C19.sampled_sa_is_exact
+#print axioms Blue.Props.C19.rank_zero_is_marker
+#print axioms Blue.Props.C19.sampled_isa_is_exact
+#print axioms Blue.Props.C19.doc_sampled
+#print axioms Blue.Props.C19.sigma_construct
+#print axioms Blue.Props.C19.sigma_roundtrip
+#print axioms Blue.Props.C19.sigma_ranges
+#print axioms Blue.Props.C19.doc_count_codepoints
+#print axioms Blue.Props.C19.doc_search_codepoints
+#print axioms Blue.Props.C19.doc_retrieve_codepoints
+#print axioms Blue.Props.C19.wavelet_tree_is_reference
+#print axioms Blue.Props.C19.wavelet_psi_is_reference
+#print axioms Blue.Props.C19.wavelet_psi_input_good
+#print axioms Blue.Props.C19.psi_asks_occurring_symbols
+#print axioms Blue.Props.C19.wavelet_psi_subrange_not_clamped
+#print axioms Blue.Props.C19.compressed_count_is_scan
+#print axioms Blue.Props.C19.compressed_search_is_scan
+#print axioms Blue.Props.C19.compressed_retrieve_is_record
